@@ -37,7 +37,7 @@ def generate(rng, tier):
         for _ in range(n):
             labels = list(LABELS[: rng.randrange(1, 5)])
             if rng.random() < 0.15:
-                labels.append("bad label")
+                labels.append(rng.choice(["bad label", "bad label", " lead", "trail ", " "]))
             a = _distinct_str(rand_records(rng, regime, nseg=rng.choice([0, 1, 2, 4, 6]), span=14, labels=labels,
                                            tracks=TRACKS, allow_empty=0.0))
             if rng.random() < 0.33:
